@@ -1,1 +1,1136 @@
-use crate::Ctx; pub fn run(_cx: &mut Ctx, _replay: Option<&str>) {}
+//! Domain PKT: `Packet` construction, `to_bytes*`, `from_bytes` – C01..C04.
+//!
+//! Line forms (see lean/CoapLite/Driver/Pkt.lean for the model side):
+//!   PKT enc <lim> <pkt>       lim = none | default | <n>;  result: ok <hex> | err <Kind> | panic
+//!   PKT rt <pkt>              encode unlimited, then decode: result: ok <dump> | err.. | panic
+//!   PKT dec <hex>             decode, then re-encode unlimited: ok <dump> <hex|err Kind|panic> | err | panic
+//!   PKT api <op;op;...>       API call sequence; result: <dump> <enc-none result> | panic
+//! <pkt> = <vtt> <code> <mid> <tok> <n> (<num> <val>)*n <payload>
+//! <val>/<payload>/<tok> = hex | - | r<len>x<hexbyte>
+use crate::tbl::{header_first_byte, mtype};
+use crate::{guarded, hex, unhex, Ctx, Rng};
+use coap_lite::error::MessageError;
+use coap_lite::{CoapOption, Header, HeaderRaw, MessageClass, Packet, RequestType, ResponseType};
+use std::collections::{BTreeMap, LinkedList};
+use std::convert::TryFrom;
+
+// ------------------------------------------------------------------ helpers
+
+pub fn val_token(v: &[u8]) -> String {
+    // parts joined by '+': plain hex, or r<len>x<byte> for a run of > 64 equal bytes
+    if v.is_empty() {
+        return "-".to_string();
+    }
+    let mut parts: Vec<String> = vec![];
+    let mut plain: Vec<u8> = vec![];
+    let mut i = 0;
+    while i < v.len() {
+        let mut j = i;
+        while j < v.len() && v[j] == v[i] {
+            j += 1;
+        }
+        if j - i > 64 {
+            if !plain.is_empty() {
+                parts.push(hex(&plain));
+                plain.clear();
+            }
+            parts.push(format!("r{}x{:02x}", j - i, v[i]));
+        } else {
+            plain.extend_from_slice(&v[i..j]);
+        }
+        i = j;
+    }
+    if !plain.is_empty() {
+        parts.push(hex(&plain));
+    }
+    parts.join("+")
+}
+
+pub fn parse_val(s: &str) -> Vec<u8> {
+    let mut out = vec![];
+    for part in s.split('+') {
+        if let Some(rest) = part.strip_prefix('r') {
+            let mut it = rest.split('x');
+            let n: usize = it.next().unwrap().parse().unwrap();
+            let b = u8::from_str_radix(it.next().unwrap(), 16).unwrap();
+            out.extend(std::iter::repeat(b).take(n));
+        } else {
+            out.extend(unhex(part));
+        }
+    }
+    out
+}
+
+#[derive(Clone, Debug, PartialEq)]
+pub enum CodeSpec {
+    Byte(u8),
+    Reserved(u8),
+    UnkReq,
+    UnkResp,
+}
+
+impl CodeSpec {
+    pub fn token(&self) -> String {
+        match self {
+            CodeSpec::Byte(b) => b.to_string(),
+            CodeSpec::Reserved(b) => format!("R{}", b),
+            CodeSpec::UnkReq => "UQ".into(),
+            CodeSpec::UnkResp => "US".into(),
+        }
+    }
+    pub fn parse(s: &str) -> CodeSpec {
+        if s == "UQ" {
+            CodeSpec::UnkReq
+        } else if s == "US" {
+            CodeSpec::UnkResp
+        } else if let Some(r) = s.strip_prefix('R') {
+            CodeSpec::Reserved(r.parse().unwrap())
+        } else {
+            CodeSpec::Byte(s.parse().unwrap())
+        }
+    }
+    pub fn class(&self) -> MessageClass {
+        match self {
+            CodeSpec::Byte(b) => MessageClass::from(*b),
+            CodeSpec::Reserved(b) => MessageClass::Reserved(*b),
+            CodeSpec::UnkReq => MessageClass::Request(RequestType::UnKnown),
+            CodeSpec::UnkResp => MessageClass::Response(ResponseType::UnKnown),
+        }
+    }
+    pub fn byte(&self) -> u8 {
+        match self {
+            CodeSpec::Byte(b) | CodeSpec::Reserved(b) => *b,
+            _ => 0xFF,
+        }
+    }
+}
+
+/// structural description of a message (what the line carries)
+#[derive(Clone, Debug)]
+pub struct PktSpec {
+    pub vtt: u8,
+    pub code: CodeSpec,
+    pub mid: u16,
+    pub tok: Vec<u8>,
+    pub opts: Vec<(u16, Vec<u8>)>, // in add order
+    pub payload: Vec<u8>,
+}
+
+impl PktSpec {
+    pub fn line(&self) -> String {
+        let mut s = format!(
+            "{} {} {} {} {}",
+            self.vtt,
+            self.code.token(),
+            self.mid,
+            val_token(&self.tok),
+            self.opts.len()
+        );
+        for (n, v) in &self.opts {
+            s.push_str(&format!(" {} {}", n, val_token(v)));
+        }
+        s.push(' ');
+        s.push_str(&val_token(&self.payload));
+        s
+    }
+    /// build through the public API (may panic: token longer than 15 bytes)
+    pub fn build(&self) -> Packet {
+        let mut p = Packet::new();
+        let raw = HeaderRaw::try_from(&[self.vtt, 0, (self.mid >> 8) as u8, self.mid as u8][..]).unwrap();
+        p.header = Header::from_raw(&raw);
+        p.header.code = self.code.class();
+        p.set_token(self.tok.clone());
+        p.header.set_token_length(self.vtt & 0x0F);
+        for (n, v) in &self.opts {
+            p.add_option(CoapOption::from(*n), v.clone());
+        }
+        p.payload = self.payload.clone();
+        p
+    }
+    /// options as the abstract message has them: stable-sorted by number
+    pub fn sorted_opts(&self) -> Vec<(u16, Vec<u8>)> {
+        let mut o = self.opts.clone();
+        o.sort_by_key(|x| x.0);
+        o
+    }
+}
+
+pub fn dump(p: &Packet) -> String {
+    let mut s = format!(
+        "v{} c{}/{:?} m{} t{} o[",
+        header_first_byte(&p.header),
+        u8::from(p.header.code),
+        p.header.code,
+        p.header.message_id,
+        hex(p.get_token())
+    );
+    let mut first = true;
+    for (n, l) in p.options() {
+        if !first {
+            s.push(';');
+        }
+        first = false;
+        s.push_str(&format!("{}=", n));
+        s.push_str(&l.iter().map(|v| val_token(v)).collect::<Vec<_>>().join(","));
+    }
+    s.push_str("] p");
+    s.push_str(&val_token(&p.payload));
+    s
+}
+
+pub fn errname(e: &MessageError) -> &'static str {
+    match e {
+        MessageError::InvalidHeader => "InvalidHeader",
+        MessageError::InvalidPacketLength => "InvalidPacketLength",
+        MessageError::InvalidTokenLength => "InvalidTokenLength",
+        MessageError::InvalidOptionDelta => "InvalidOptionDelta",
+        MessageError::InvalidOptionLength => "InvalidOptionLength",
+    }
+}
+
+pub fn show_bytes(r: &Option<Result<Vec<u8>, MessageError>>) -> String {
+    match r {
+        None => "panic".into(),
+        Some(Ok(b)) => format!("ok {}", val_token(b)),
+        Some(Err(e)) => format!("err {}", errname(e)),
+    }
+}
+
+// ------------------------------------------------- independent RFC 7252 §3 reference
+
+fn rfc_field(x: usize, out_ext: &mut Vec<u8>) -> u8 {
+    if x < 13 {
+        x as u8
+    } else if x < 269 {
+        out_ext.push((x - 13) as u8);
+        13
+    } else {
+        let y = x - 269;
+        out_ext.push((y >> 8) as u8);
+        out_ext.push((y & 0xff) as u8);
+        14
+    }
+}
+
+/// wire image of an abstract message, written from RFC 7252 §3 / §3.1
+pub fn rfc_wire(vtt: u8, code: u8, mid: u16, tok: &[u8], opts: &[(u16, Vec<u8>)], payload: &[u8]) -> Vec<u8> {
+    let mut w = vec![vtt, code, (mid >> 8) as u8, (mid & 0xff) as u8];
+    w.extend_from_slice(tok);
+    let mut prev = 0usize;
+    for (n, v) in opts {
+        let mut de = vec![];
+        let mut le = vec![];
+        let dn = rfc_field(*n as usize - prev, &mut de);
+        let ln = rfc_field(v.len(), &mut le);
+        w.push(dn << 4 | ln);
+        w.extend(de);
+        w.extend(le);
+        w.extend_from_slice(v);
+        prev = *n as usize;
+    }
+    if !payload.is_empty() {
+        w.push(0xFF);
+        w.extend_from_slice(payload);
+    }
+    w
+}
+
+pub fn rfc_len(tok: usize, opts: &[(u16, Vec<u8>)], payload_sent: usize) -> usize {
+    let mut n = 4 + tok;
+    let mut prev = 0usize;
+    let f = |x: usize| if x < 13 { 0 } else if x < 269 { 1 } else { 2 };
+    for (num, v) in opts {
+        n += 1 + f(*num as usize - prev) + f(v.len()) + v.len();
+        prev = *num as usize;
+    }
+    if payload_sent > 0 {
+        n += 1 + payload_sent;
+    }
+    n
+}
+
+#[derive(Debug, Clone, PartialEq)]
+pub struct RefFields {
+    pub vtt: u8,
+    pub code: u8,
+    pub mid: u16,
+    pub tok: Vec<u8>,
+    pub opts: Vec<(u16, Vec<u8>)>,
+    pub payload: Vec<u8>,
+    pub marker: Option<usize>,
+}
+
+#[derive(Debug, Clone, PartialEq)]
+pub enum RefVerdict {
+    MustAccept(RefFields),
+    /// RFC-conformant receivers may reject (version != 1, empty payload after
+    /// marker, content in a 0.00 message); if accepted these are the fields
+    Either(RefFields),
+    MustReject(&'static str),
+}
+
+/// three-valued reference parser written from RFC 7252 §3
+pub fn ref_parse(b: &[u8]) -> RefVerdict {
+    if b.len() < 4 {
+        return RefVerdict::MustReject("shorter than four bytes");
+    }
+    let tkl = (b[0] & 0x0f) as usize;
+    if tkl > 8 {
+        return RefVerdict::MustReject("token length 9-15");
+    }
+    if b.len() < 4 + tkl {
+        return RefVerdict::MustReject("truncated token");
+    }
+    let mut pos = 4 + tkl;
+    let mut num: usize = 0;
+    let mut opts = vec![];
+    let mut marker = None;
+    let mut payload = vec![];
+    while pos < b.len() {
+        let h = b[pos];
+        if h == 0xFF {
+            marker = Some(pos);
+            payload = b[pos + 1..].to_vec();
+            break;
+        }
+        pos += 1;
+        let mut fields = [(h >> 4) as usize, (h & 15) as usize];
+        for (i, f) in fields.iter_mut().enumerate() {
+            match *f {
+                13 => {
+                    if pos >= b.len() {
+                        return RefVerdict::MustReject("truncated extended delta/length");
+                    }
+                    *f = b[pos] as usize + 13;
+                    pos += 1;
+                }
+                14 => {
+                    if pos + 1 >= b.len() {
+                        return RefVerdict::MustReject("truncated extended delta/length");
+                    }
+                    *f = ((b[pos] as usize) << 8 | b[pos + 1] as usize) + 269;
+                    pos += 2;
+                }
+                15 => {
+                    return RefVerdict::MustReject(if i == 0 { "delta nibble 15" } else { "length nibble 15" });
+                }
+                _ => {}
+            }
+        }
+        num += fields[0];
+        if num > 65535 {
+            return RefVerdict::MustReject("cumulative option number exceeds 65535");
+        }
+        if pos + fields[1] > b.len() {
+            return RefVerdict::MustReject("truncated option value");
+        }
+        opts.push((num as u16, b[pos..pos + fields[1]].to_vec()));
+        pos += fields[1];
+    }
+    let f = RefFields {
+        vtt: b[0],
+        code: b[1],
+        mid: (b[2] as u16) << 8 | b[3] as u16,
+        tok: b[4..4 + tkl].to_vec(),
+        opts,
+        payload,
+        marker,
+    };
+    let lenient = (b[0] >> 6) != 1
+        || (f.marker.is_some() && f.payload.is_empty())
+        || (f.code == 0 && (tkl > 0 || !f.opts.is_empty() || f.marker.is_some()));
+    if lenient {
+        RefVerdict::Either(f)
+    } else {
+        RefVerdict::MustAccept(f)
+    }
+}
+
+fn flat_opts(p: &Packet) -> Vec<(u16, Vec<u8>)> {
+    let mut o = vec![];
+    for (n, l) in p.options() {
+        for v in l.iter() {
+            o.push((*n, v.clone()));
+        }
+    }
+    o
+}
+
+// ------------------------------------------------------------------ case runners
+
+pub fn case_enc(cx: &mut Ctx, spec: &PktSpec, lim: Option<Option<usize>>) {
+    // lim: None = to_bytes (default), Some(None) = unlimited, Some(Some(n)) = with_limit
+    let limtok = match lim {
+        None => "default".to_string(),
+        Some(None) => "none".to_string(),
+        Some(Some(n)) => n.to_string(),
+    };
+    let line = format!("PKT enc {} {}", limtok, spec.line());
+    let r = guarded(|| {
+        let p = spec.build();
+        match lim {
+            None => p.to_bytes(),
+            Some(None) => p.to_bytes_unlimited(),
+            Some(Some(n)) => p.to_bytes_with_limit(n),
+        }
+    });
+    cx.case(&line, &show_bytes(&r));
+    // ---- direct oracles (C01 wire image, C04 limit) on well-formed specs only
+    let tkl_ok = spec.tok.len() <= 8 && (spec.vtt & 15) as usize == spec.tok.len();
+    if !tkl_ok {
+        return;
+    }
+    cx.nontrivial(&line);
+    let so = spec.sorted_opts();
+    let too_long = so.iter().any(|(_, v)| v.len() > 65804);
+    let sent = if spec.code.class() != MessageClass::Empty { spec.payload.len() } else { 0 };
+    let explen = rfc_len(spec.tok.len(), &so, sent);
+    let limit = match lim {
+        None => Some(Packet::MAX_SIZE),
+        Some(x) => x,
+    };
+    match &r {
+        None => cx.oracle_fail("C04", &line, "serialiser panicked"),
+        Some(res) => {
+            if too_long {
+                if res.is_ok() {
+                    cx.oracle_fail("C04", &line, "option value longer than 65804 bytes was emitted instead of refused");
+                }
+                cx.stat("enc_value_too_long");
+                return;
+            }
+            let fits = limit.map_or(true, |l| explen <= l);
+            match res {
+                Ok(bytes) => {
+                    if !fits {
+                        cx.oracle_fail("C04", &line, &format!("wire length {} exceeds limit {:?} but serialisation succeeded", explen, limit));
+                    }
+                    if bytes.len() != explen {
+                        cx.oracle_fail("C04", &line, &format!("output has {} bytes, exact wire length is {}", bytes.len(), explen));
+                    }
+                    let pay: &[u8] = if sent > 0 { &spec.payload } else { &[] };
+                    let want = rfc_wire(spec.vtt, spec.code.byte(), spec.mid, &spec.tok, &so, pay);
+                    if *bytes != want {
+                        let at = bytes.iter().zip(want.iter()).position(|(a, b)| a != b).unwrap_or(bytes.len().min(want.len()));
+                        cx.oracle_fail("C01", &line, &format!("encoding differs from the RFC 7252 wire image at byte {} (got {} bytes, want {})", at, bytes.len(), want.len()));
+                    }
+                    cx.stat(if fits { "enc_ok" } else { "enc_ok_overlimit" });
+                }
+                Err(e) => {
+                    if fits {
+                        cx.oracle_fail("C04", &line, &format!("wire length {} is within limit {:?} but serialisation failed with {}", explen, limit, errname(e)));
+                    } else if *e != MessageError::InvalidPacketLength {
+                        cx.oracle_fail("C04", &line, &format!("over the limit but error is {} instead of InvalidPacketLength", errname(e)));
+                    }
+                    cx.stat("enc_err_limit");
+                }
+            }
+            if let Some(l) = limit {
+                let d = explen as i64 - l as i64;
+                if d == -1 {
+                    cx.stat("limit_minus_1");
+                } else if d == 0 {
+                    cx.stat("limit_exact");
+                } else if d == 1 {
+                    cx.stat("limit_plus_1");
+                }
+            }
+        }
+    }
+}
+
+/// encode unlimited then decode; oracle: C01 round trip
+pub fn case_rt(cx: &mut Ctx, spec: &PktSpec) {
+    let line = format!("PKT rt {}", spec.line());
+    let r = guarded(|| {
+        let p = spec.build();
+        p.to_bytes_unlimited().map(|b| Packet::from_bytes(&b))
+    });
+    let s = match &r {
+        None => "panic".to_string(),
+        Some(Err(e)) => format!("err {}", errname(e)),
+        Some(Ok(Err(e))) => format!("decerr {}", errname(e)),
+        Some(Ok(Ok(q))) => format!("ok {}", dump(q)),
+    };
+    cx.case(&line, &s);
+    let tkl_ok = spec.tok.len() <= 8 && (spec.vtt & 15) as usize == spec.tok.len();
+    let so = spec.sorted_opts();
+    let too_long = so.iter().any(|(_, v)| v.len() > 65804);
+    let code0_payload = spec.code.byte() == 0 && !spec.payload.is_empty();
+    if !tkl_ok || too_long || code0_payload {
+        return;
+    }
+    cx.nontrivial(&line);
+    for (n, _) in &so {
+        cx.stat(match *n {
+            0..=12 => "opt_num_lit",
+            13..=268 => "opt_num_ext8",
+            _ => "opt_num_ext16",
+        });
+    }
+    match &r {
+        Some(Ok(Ok(q))) => {
+            let same = header_first_byte(&q.header) == spec.vtt
+                && u8::from(q.header.code) == spec.code.byte()
+                && q.header.message_id == spec.mid
+                && q.get_token() == &spec.tok[..]
+                && flat_opts(q) == so
+                && q.payload == spec.payload;
+            if !same {
+                cx.oracle_fail("C01", &line, &format!("decode(encode(m)) differs from m: got {}", dump(q)));
+            }
+        }
+        _ => cx.oracle_fail("C01", &line, &format!("encode/decode of a well-formed message failed: {}", s)),
+    }
+}
+
+/// decode, then re-encode without limit; oracles: C02 (lossless) and C03 (reference parser)
+pub fn case_dec(cx: &mut Ctx, bytes: &[u8]) {
+    let line = format!("PKT dec {}", val_token(bytes));
+    let r = guarded(|| Packet::from_bytes(bytes));
+    let verdict = ref_parse(bytes);
+    match &r {
+        None => {
+            cx.case(&line, "panic");
+            cx.oracle_fail("C03", &line, "parser panicked");
+            if let RefVerdict::MustAccept(_) | RefVerdict::Either(_) = verdict {
+                cx.oracle_fail("C02", &line, "parser panicked on a datagram the RFC framing admits");
+            }
+        }
+        Some(Err(e)) => {
+            cx.case(&line, "err");
+            cx.stat(&format!("dec_err_{}", errname(e)));
+            if let RefVerdict::MustAccept(_) = verdict {
+                cx.oracle_fail("C03", &line, &format!("well-formed version-1 datagram rejected with {}", errname(e)));
+            }
+            if let RefVerdict::MustReject(why) = &verdict {
+                cx.stat(&format!("reject_{}", why.replace(' ', "_")));
+            }
+        }
+        Some(Ok(p)) => {
+            let re = guarded(|| p.to_bytes_unlimited());
+            cx.case(&line, &format!("ok {} | {}", dump(p), show_bytes(&re)));
+            cx.nontrivial(&line);
+            cx.stat("dec_ok");
+            match &verdict {
+                RefVerdict::MustReject(why) => {
+                    cx.oracle_fail("C03", &line, &format!("malformed datagram accepted ({})", why));
+                }
+                RefVerdict::MustAccept(f) | RefVerdict::Either(f) => {
+                    let same = header_first_byte(&p.header) == f.vtt
+                        && u8::from(p.header.code) == f.code
+                        && p.header.message_id == f.mid
+                        && p.get_token() == &f.tok[..]
+                        && flat_opts(p) == f.opts
+                        && p.payload == f.payload;
+                    if !same {
+                        cx.oracle_fail("C03", &line, &format!("accepted but fields differ from the RFC 7252 grammar: {}", dump(p)));
+                    }
+                    // C02: canonical form of the input
+                    let mut canon = bytes.to_vec();
+                    if let Some(m) = f.marker {
+                        if f.payload.is_empty() || f.code == 0 {
+                            canon.truncate(m);
+                        }
+                    }
+                    match &re {
+                        Some(Ok(b2)) if *b2 == canon => {}
+                        other => {
+                            cx.oracle_fail("C02", &line, &format!("re-encoding gives {} instead of the input", show_bytes(other)));
+                        }
+                    }
+                    if matches!(verdict, RefVerdict::Either(_)) {
+                        cx.stat("dec_ok_lenient");
+                    }
+                }
+            }
+        }
+    }
+}
+
+// API sessions -----------------------------------------------------------
+
+#[derive(Clone, Debug)]
+pub enum Op {
+    Ver(u8),
+    Typ(u8),
+    Tkl(u8),
+    Tok(Vec<u8>),
+    Add(u16, Vec<u8>),
+    Set(u16, Vec<Vec<u8>>),
+    Clr(u16),
+    ClrAll,
+    Code(CodeSpec),
+    Mid(u16),
+    Pay(Vec<u8>),
+}
+
+impl Op {
+    pub fn token(&self) -> String {
+        match self {
+            Op::Ver(v) => format!("ver {}", v),
+            Op::Typ(t) => format!("typ {}", t),
+            Op::Tkl(n) => format!("tkl {}", n),
+            Op::Tok(t) => format!("tok {}", val_token(t)),
+            Op::Add(n, v) => format!("add {} {}", n, val_token(v)),
+            Op::Set(n, vs) => format!(
+                "set {} {}",
+                n,
+                if vs.is_empty() { "_".to_string() } else { vs.iter().map(|v| val_token(v)).collect::<Vec<_>>().join(",") }
+            ),
+            Op::Clr(n) => format!("clr {}", n),
+            Op::ClrAll => "clrall".into(),
+            Op::Code(c) => format!("code {}", c.token()),
+            Op::Mid(m) => format!("mid {}", m),
+            Op::Pay(p) => format!("pay {}", val_token(p)),
+        }
+    }
+    pub fn apply(&self, p: &mut Packet) {
+        match self {
+            Op::Ver(v) => p.header.set_version(*v),
+            Op::Typ(t) => p.header.set_type(mtype(*t as u64)),
+            Op::Tkl(n) => p.header.set_token_length(*n),
+            Op::Tok(t) => p.set_token(t.clone()),
+            Op::Add(n, v) => p.add_option(CoapOption::from(*n), v.clone()),
+            Op::Set(n, vs) => {
+                let l: LinkedList<Vec<u8>> = vs.iter().cloned().collect();
+                p.set_option(CoapOption::from(*n), l)
+            }
+            Op::Clr(n) => p.clear_option(CoapOption::from(*n)),
+            Op::ClrAll => p.clear_all_options(),
+            Op::Code(c) => p.header.code = c.class(),
+            Op::Mid(m) => p.header.message_id = *m,
+            Op::Pay(x) => p.payload = x.clone(),
+        }
+    }
+}
+
+/// reference semantics of the builder API: last write wins per header field,
+/// per option number the values in call order
+#[derive(Clone)]
+struct RefMsg {
+    ver: u8,
+    typ: u8,
+    tkl: u8,
+    code: u8,
+    mid: u16,
+    tok: Vec<u8>,
+    opts: BTreeMap<u16, Vec<Vec<u8>>>,
+    pay: Vec<u8>,
+    code_is_empty_variant: bool,
+}
+
+pub fn case_api(cx: &mut Ctx, ops: &[Op]) {
+    let line = format!("PKT api {}", ops.iter().map(|o| o.token()).collect::<Vec<_>>().join(";"));
+    let r = guarded(|| {
+        let mut p = Packet::new();
+        for o in ops {
+            o.apply(&mut p);
+        }
+        let e = p.to_bytes_unlimited();
+        (p, e)
+    });
+    match &r {
+        None => cx.case(&line, "panic"),
+        Some((p, e)) => cx.case(&line, &format!("{} | {}", dump(p), show_bytes(&Some(e.clone_result())))),
+    }
+    // reference
+    let mut m = RefMsg { ver: 1, typ: 0, tkl: 0, code: 1, mid: 0, tok: vec![], opts: BTreeMap::new(), pay: vec![], code_is_empty_variant: false };
+    let mut must_panic = false;
+    for o in ops {
+        match o {
+            Op::Ver(v) => m.ver = v & 3,
+            Op::Typ(t) => m.typ = *t,
+            Op::Tkl(n) => {
+                if n & 0xF0 != 0 {
+                    must_panic = true;
+                    break;
+                }
+                m.tkl = *n
+            }
+            Op::Tok(t) => {
+                if (t.len() as u8) & 0xF0 != 0 {
+                    must_panic = true;
+                    break;
+                }
+                m.tkl = t.len() as u8;
+                m.tok = t.clone()
+            }
+            Op::Add(n, v) => m.opts.entry(*n).or_default().push(v.clone()),
+            Op::Set(n, vs) => {
+                m.opts.insert(*n, vs.clone());
+            }
+            Op::Clr(n) => {
+                if let Some(l) = m.opts.get_mut(n) {
+                    l.clear()
+                }
+            }
+            Op::ClrAll => m.opts.clear(),
+            Op::Code(c) => {
+                m.code = c.byte();
+                m.code_is_empty_variant = c.class() == MessageClass::Empty
+            }
+            Op::Mid(x) => m.mid = *x,
+            Op::Pay(x) => m.pay = x.clone(),
+        }
+    }
+    if must_panic {
+        return; // documented assertion of the API; nothing to compare
+    }
+    let wf = m.tok.len() <= 8 && m.tkl as usize == m.tok.len() && !(m.code == 0 && !m.pay.is_empty());
+    let flat: Vec<(u16, Vec<u8>)> = m.opts.iter().flat_map(|(n, l)| l.iter().map(move |v| (*n, v.clone()))).collect();
+    if !wf || flat.iter().any(|(_, v)| v.len() > 65804) {
+        return;
+    }
+    cx.nontrivial(&line);
+    let vtt = m.ver << 6 | m.typ << 4 | m.tkl;
+    let want = rfc_wire(vtt, m.code, m.mid, &m.tok, &flat, &m.pay);
+    match &r {
+        Some((_, Ok(b))) if *b == want => {
+            // and decode back
+            match guarded(|| Packet::from_bytes(b)) {
+                Some(Ok(q)) => {
+                    let same = header_first_byte(&q.header) == vtt
+                        && u8::from(q.header.code) == m.code
+                        && q.header.message_id == m.mid
+                        && q.get_token() == &m.tok[..]
+                        && flat_opts(&q) == flat
+                        && q.payload == m.pay;
+                    if !same {
+                        cx.oracle_fail("C01", &line, &format!("message built through the API decodes back as {}", dump(&q)));
+                    }
+                }
+                _ => cx.oracle_fail("C01", &line, "encoding of an API-built message does not parse"),
+            }
+        }
+        Some((_, other)) => cx.oracle_fail(
+            "C01",
+            &line,
+            &format!("API-built message encodes as {} instead of the RFC image {}", show_bytes(&Some(other.clone_result())), val_token(&want)),
+        ),
+        None => cx.oracle_fail("C01", &line, "building/encoding a well-formed message panicked"),
+    }
+}
+
+trait CloneResult {
+    fn clone_result(&self) -> Result<Vec<u8>, MessageError>;
+}
+impl CloneResult for Result<Vec<u8>, MessageError> {
+    fn clone_result(&self) -> Result<Vec<u8>, MessageError> {
+        match self {
+            Ok(b) => Ok(b.clone()),
+            Err(MessageError::InvalidHeader) => Err(MessageError::InvalidHeader),
+            Err(MessageError::InvalidPacketLength) => Err(MessageError::InvalidPacketLength),
+            Err(MessageError::InvalidTokenLength) => Err(MessageError::InvalidTokenLength),
+            Err(MessageError::InvalidOptionDelta) => Err(MessageError::InvalidOptionDelta),
+            Err(MessageError::InvalidOptionLength) => Err(MessageError::InvalidOptionLength),
+        }
+    }
+}
+
+// ------------------------------------------------------------------ generators
+
+const DELTAS: [usize; 14] = [0, 1, 12, 13, 14, 243, 244, 255, 256, 268, 269, 270, 1000, 65535];
+const LENS: [usize; 9] = [0, 1, 12, 13, 14, 268, 269, 270, 1000];
+
+fn fill(rng: &mut Rng, n: usize) -> Vec<u8> {
+    if n > 64 {
+        vec![(rng.next() % 251) as u8 + 1; n]
+    } else {
+        rng.bytes(n)
+    }
+}
+
+fn random_spec(rng: &mut Rng, wf: bool) -> PktSpec {
+    let tkl = *rng.pick(&[0usize, 0, 1, 2, 4, 8, 8, 3]);
+    let ver = if rng.chance(4, 5) { 1u8 } else { rng.below(4) as u8 };
+    let typ = rng.below(4) as u8;
+    let nopts = rng.below(5) as usize;
+    let mut opts = vec![];
+    for _ in 0..nopts {
+        let n = match rng.below(6) {
+            0 => *rng.pick(&[1u16, 3, 4, 6, 11, 12, 14, 15, 17, 23, 27, 28, 35, 60, 258]),
+            1 => rng.below(14) as u16,
+            2 => rng.range(13, 300) as u16,
+            3 => *rng.pick(&DELTAS) as u16,
+            4 => rng.below(65536) as u16,
+            _ => 11,
+        };
+        let l = match rng.below(8) {
+            0 => *rng.pick(&LENS),
+            1 => rng.range(12, 15) as usize,
+            2 => rng.range(267, 271) as usize,
+            _ => rng.below(12) as usize,
+        };
+        opts.push((n, fill(rng, l)));
+    }
+    let code = match rng.below(12) {
+        0 => CodeSpec::Byte(0),
+        1 => CodeSpec::Byte(rng.below(256) as u8),
+        2 => CodeSpec::Byte(0x45),
+        3 => CodeSpec::Byte(0xFF),
+        _ => CodeSpec::Byte(rng.range(1, 7) as u8),
+    };
+    let mut payload = match rng.below(4) {
+        0 => vec![],
+        1 => fill(rng, 1),
+        2 => { let n = rng.below(40) as usize; fill(rng, n) }
+        _ => fill(rng, 300),
+    };
+    if wf && code.byte() == 0 {
+        payload.clear();
+    }
+    let tok = rng.bytes(tkl);
+    PktSpec { vtt: ver << 6 | typ << 4 | tkl as u8, code, mid: rng.below(65536) as u16, tok, opts, payload }
+}
+
+fn random_op(rng: &mut Rng) -> Op {
+    let nums = [0u16, 1, 6, 11, 12, 13, 23, 258, 269, 300, 65535];
+    match rng.below(16) {
+        0 => Op::Ver(rng.below(4) as u8),
+        1 => Op::Typ(rng.below(4) as u8),
+        2 => { let n = *rng.pick(&[0usize, 1, 4, 8]); Op::Tok(rng.bytes(n)) }
+        3 | 4 | 5 | 6 => { let num = *rng.pick(&nums); let n = *rng.pick(&[0usize, 1, 2, 12, 13, 14, 268, 269]); Op::Add(num, fill(rng, n)) }
+        7 => {
+            let k = rng.below(3) as usize;
+            { let num = *rng.pick(&nums); Op::Set(num, (0..k).map(|_| { let n = rng.below(15) as usize; fill(rng, n) }).collect()) }
+        }
+        8 => Op::Clr(*rng.pick(&nums)),
+        9 => {
+            if rng.chance(1, 4) {
+                Op::ClrAll
+            } else {
+                Op::Clr(*rng.pick(&nums))
+            }
+        }
+        10 => Op::Code(CodeSpec::Byte(*rng.pick(&[1u8, 2, 3, 4, 0x45, 0x84, 0xFF, 0x20]))),
+        11 => Op::Mid(*rng.pick(&[0u16, 1, 255, 256, 65535, 0x1234])),
+        12 | 13 => { let n = *rng.pick(&[0usize, 1, 5, 300]); Op::Pay(fill(rng, n)) }
+        14 => Op::Ver(*rng.pick(&[0u8, 1, 2, 3, 4, 7, 255])),
+        _ => {
+            if rng.chance(1, 10) {
+                Op::Tkl(*rng.pick(&[0u8, 1, 8, 9, 15, 16]))
+            } else {
+                Op::Mid(rng.below(65536) as u16)
+            }
+        }
+    }
+}
+
+pub fn run(cx: &mut Ctx, _replay: Option<&str>) {
+    let thorough = cx.tier_thorough;
+    let mut rng = Rng(cx.seed ^ 0x504b54);
+
+    // corpus of past failures first (D1-D6 witnesses)
+    for h in ["40010000d1f501", "40010000e0ffff", "40010000e0fe00e01000", "4001000000", "40010000ff", "40000000ff41", "4001000010", "40010000d0", "40010000e000", "400100000d", "400100000e00"] {
+        case_dec(cx, &unhex(h));
+    }
+    {
+        // length extension 0xffff followed by exactly 65804 bytes (D3)
+        let mut b = unhex("400100000effff");
+        b.extend(vec![0x61; 65804]);
+        case_dec(cx, &b);
+        b.pop();
+        case_dec(cx, &b);
+    }
+
+    // ---- 1. boundary product: <= 2 options (3 in thorough on a subset)
+    let toks: [usize; 3] = [0, 1, 8];
+    let pays: [usize; 3] = [0, 1, 300];
+    let mut count = 0u64;
+    for &d1 in DELTAS.iter() {
+        for &l1 in LENS.iter() {
+            for second in std::iter::once(None).chain(DELTAS.iter().flat_map(|d| LENS.iter().map(move |l| Some((*d, *l))))) {
+                let mut opts = vec![(d1 as u16, fill(&mut rng, l1))];
+                if let Some((d2, l2)) = second {
+                    if d1 + d2 > 65535 {
+                        continue;
+                    }
+                    opts.push(((d1 + d2) as u16, fill(&mut rng, l2)));
+                }
+                let tk = toks[(count % 3) as usize];
+                let pl = pays[((count / 3) % 3) as usize];
+                count += 1;
+                let all_tp: Vec<(usize, usize)> = if second.is_none() || thorough {
+                    toks.iter().flat_map(|t| pays.iter().map(move |p| (*t, *p))).collect()
+                } else {
+                    vec![(tk, pl)]
+                };
+                for (tk, pl) in all_tp {
+                    let spec = PktSpec {
+                        vtt: 0x40 | tk as u8,
+                        code: CodeSpec::Byte(if pl == 300 { 0x45 } else { 1 }),
+                        mid: (count as u16).wrapping_mul(7919),
+                        tok: rng.bytes(tk),
+                        opts: opts.clone(),
+                        payload: fill(&mut rng, pl),
+                    };
+                    case_enc(cx, &spec, Some(None));
+                    case_rt(cx, &spec);
+                    // and the decoder on the reference image directly
+                    let w = rfc_wire(spec.vtt, spec.code.byte(), spec.mid, &spec.tok, &spec.sorted_opts(), &spec.payload);
+                    case_dec(cx, &w);
+                }
+            }
+        }
+    }
+    cx.exhaustive.push("all messages with <= 2 options over delta x length boundary sets".into());
+
+    // ---- 2. values at the 16-bit extended-length limit
+    for l in [65803usize, 65804, 65805, 65806, 70000, 131341] {
+        for d in [0usize, 13, 269] {
+            let spec = PktSpec { vtt: 0x40, code: CodeSpec::Byte(2), mid: 7, tok: vec![], opts: vec![(d as u16, vec![0x61; l])], payload: vec![1, 2, 3] };
+            case_enc(cx, &spec, Some(None));
+            case_enc(cx, &spec, Some(Some(200000)));
+            case_enc(cx, &spec, None);
+            case_rt(cx, &spec);
+        }
+    }
+
+    // ---- 3. all first header bytes (version x type x tkl nibble) with matching/mismatching tokens
+    for vtt in 0..=255u8 {
+        let tkl = (vtt & 15) as usize;
+        for toklen in [tkl, 0, 8, 9, 15, 16] {
+            let spec = PktSpec { vtt, code: CodeSpec::Byte(1), mid: 0xABCD, tok: rng.bytes(toklen), opts: vec![(11, b"a".to_vec())], payload: vec![] };
+            case_enc(cx, &spec, Some(None));
+            case_rt(cx, &spec);
+        }
+    }
+
+    // ---- 4. all code bytes, with and without payload; non-canonical code values
+    for b in 0..=255u8 {
+        for pl in [0usize, 2] {
+            for c in [CodeSpec::Byte(b), CodeSpec::Reserved(b)] {
+                let spec = PktSpec { vtt: 0x41, code: c, mid: b as u16, tok: vec![9], opts: vec![], payload: vec![0xAA; pl] };
+                case_enc(cx, &spec, Some(None));
+                case_rt(cx, &spec);
+                case_enc(cx, &spec, Some(Some(5 + pl)));
+            }
+        }
+    }
+    for c in [CodeSpec::UnkReq, CodeSpec::UnkResp] {
+        let spec = PktSpec { vtt: 0x40, code: c, mid: 1, tok: vec![], opts: vec![], payload: vec![1] };
+        case_enc(cx, &spec, Some(None));
+        case_rt(cx, &spec);
+    }
+
+    // ---- 5. limits: land on L-1, L, L+1 via payload and via an option value
+    let mut limits: Vec<usize> = (0..=9).collect();
+    limits.extend([12, 13, 100, 269, 270, 1152, 1279, 1280, 1281, 4096, 63999, 64000, 64001]);
+    for _ in 0..10 {
+        limits.push(rng.range(10, 3000) as usize);
+    }
+    for &l in &limits {
+        for tk in [0usize, 4, 8] {
+            for delta in [-1i64, 0, 1] {
+                let target = l as i64 + delta;
+                // via payload: 4 + tk + 1 + pl = target
+                let pl = target - 4 - tk as i64 - 1;
+                if pl >= 1 {
+                    let spec = PktSpec { vtt: 0x40 | tk as u8, code: CodeSpec::Byte(0x45), mid: 1, tok: rng.bytes(tk), opts: vec![], payload: vec![0x55; pl as usize] };
+                    case_enc(cx, &spec, Some(Some(l)));
+                    case_enc(cx, &spec, None);
+                    case_enc(cx, &spec, Some(None));
+                    // same message with code 0.00: payload is not sent, so only 4+tk bytes count
+                    let spec0 = PktSpec { code: CodeSpec::Byte(0), ..spec.clone() };
+                    case_enc(cx, &spec0, Some(Some(l)));
+                    case_enc(cx, &spec0, None);
+                }
+                // no payload at all
+                if target == 4 + tk as i64 {
+                    let spec = PktSpec { vtt: 0x40 | tk as u8, code: CodeSpec::Byte(1), mid: 1, tok: rng.bytes(tk), opts: vec![], payload: vec![] };
+                    case_enc(cx, &spec, Some(Some(l)));
+                }
+                // via one option value of length v: 4 + tk + 1 + ext(v) + v = target  (option number 11)
+                for extb in [0i64, 1, 2] {
+                    let v = target - 4 - tk as i64 - 1 - extb;
+                    let ok = match extb {
+                        0 => (0..=12).contains(&v),
+                        1 => (13..=268).contains(&v),
+                        _ => v >= 269,
+                    };
+                    if ok {
+                        let spec = PktSpec { vtt: 0x40 | tk as u8, code: CodeSpec::Byte(3), mid: 2, tok: rng.bytes(tk), opts: vec![(11, vec![0x33; v as usize])], payload: vec![] };
+                        case_enc(cx, &spec, Some(Some(l)));
+                        case_enc(cx, &spec, None);
+                    }
+                }
+            }
+        }
+    }
+
+    // ---- 6. random structured messages
+    let nrand = if thorough { 60000 } else { 12000 };
+    for i in 0..nrand {
+        let spec = random_spec(&mut rng, i % 8 != 0);
+        case_enc(cx, &spec, Some(None));
+        case_rt(cx, &spec);
+        if i % 4 == 0 {
+            let so = spec.sorted_opts();
+            let sent = if spec.code.byte() != 0 { spec.payload.len() } else { 0 };
+            let l = rfc_len(spec.tok.len(), &so, sent);
+            let lim = (l as i64 + rng.range(0, 2) as i64 - 1).max(0) as usize;
+            case_enc(cx, &spec, Some(Some(lim)));
+        }
+    }
+
+    // ---- 7. API call sequences (any order, clear / re-add, setter permutations)
+    let nsess = if thorough { 200000 } else { 20000 };
+    for _ in 0..nsess {
+        let n = rng.range(1, 12) as usize;
+        let ops: Vec<Op> = (0..n).map(|_| random_op(&mut rng)).collect();
+        case_api(cx, &ops);
+    }
+    // directed: every permutation of a fixed set of independent setters gives the same message
+    {
+        let base = vec![Op::Ver(2), Op::Typ(3), Op::Tok(vec![1, 2, 3]), Op::Code(CodeSpec::Byte(0x44)), Op::Mid(0xBEEF), Op::Add(258, vec![1]), Op::Add(11, b"x".to_vec()), Op::Pay(vec![7])];
+        let mut idx: Vec<usize> = (0..base.len()).collect();
+        let mut perms = 0;
+        permute(&mut idx, 0, &mut |perm| {
+            if perms < 2000 || perms % 20 == 0 {
+                let ops: Vec<Op> = perm.iter().map(|&i| base[i].clone()).collect();
+                case_api(cx, &ops);
+            }
+            perms += 1;
+        });
+        // cleared and re-added
+        case_api(cx, &[Op::Add(4, vec![2]), Op::Add(11, vec![1]), Op::Clr(4), Op::Add(4, vec![3]), Op::Add(4, vec![4])]);
+        case_api(cx, &[Op::Add(258, vec![0x1a]), Op::Clr(258)]);
+        case_api(cx, &[Op::Add(258, vec![0x1a])]);
+    }
+
+    // ---- 8. decoder: exhaustive short tails after a set of headers
+    let headers: Vec<Vec<u8>> = {
+        let mut h = vec![];
+        for (tkl, code) in [(0u8, 1u8), (0, 0), (0, 0x45), (0, 0xFF), (1, 1), (1, 0), (8, 1), (8, 0x45), (9, 1), (15, 1), (2, 1), (4, 0xFF)] {
+            let mut v = vec![0x40 | tkl, code, 0x12, 0x34];
+            v.extend(rng.bytes(tkl.min(8) as usize));
+            h.push(v);
+        }
+        h
+    };
+    let edge: [u8; 17] = [0, 1, 0x0c, 0x0d, 0x0e, 0x0f, 0x10, 0xc0, 0xd0, 0xd1, 0xdd, 0xe0, 0xee, 0xf0, 0xf1, 0xfe, 0xff];
+    for (hi, h) in headers.iter().enumerate() {
+        // every proper prefix of the header itself
+        for k in 0..h.len() {
+            case_dec(cx, &h[..k]);
+        }
+        case_dec(cx, h);
+        let full2 = thorough || hi < 3;
+        for a in 0..=255u8 {
+            let mut v = h.clone();
+            v.push(a);
+            case_dec(cx, &v);
+            for b in 0..=255u8 {
+                if !full2 && !edge.contains(&b) && !edge.contains(&a) {
+                    continue;
+                }
+                let mut w = v.clone();
+                w.push(b);
+                case_dec(cx, &w);
+                if thorough && hi == 0 {
+                    for c in 0..=255u8 {
+                        let mut x = w.clone();
+                        x.push(c);
+                        case_dec(cx, &x);
+                    }
+                } else if edge.contains(&b) && edge.contains(&a) {
+                    for &c in &edge {
+                        let mut x = w.clone();
+                        x.push(c);
+                        case_dec(cx, &x);
+                    }
+                }
+            }
+        }
+    }
+    cx.exhaustive.push(if thorough { "every byte string of <= 2 bytes after each of 12 headers; every 3-byte string after one header".to_string() } else { "every byte string of <= 2 bytes after each of 3 headers; boundary-byte strings of <= 3 bytes after each of 12 headers".to_string() });
+
+    // ---- 9. every option header byte x extended delta / length values, with and without room
+    let ext16: [u16; 9] = [0, 1, 0xff, 0x100, 0xfef1, 0xfef2, 0xfef3, 0xfffe, 0xffff];
+    for hb in 0..=255u8 {
+        let dn = hb >> 4;
+        let ln = hb & 15;
+        let dexts: Vec<Vec<u8>> = match dn {
+            13 => (0..=255u8).step_by(if ln >= 13 { 15 } else { 1 }).map(|x| vec![x]).chain(std::iter::once(vec![255])).collect(),
+            14 => ext16.iter().map(|x| vec![(x >> 8) as u8, *x as u8]).collect(),
+            _ => vec![vec![]],
+        };
+        let lexts: Vec<Vec<u8>> = match ln {
+            13 => (0..=255u8).step_by(if dn >= 13 { 15 } else { 1 }).map(|x| vec![x]).chain(std::iter::once(vec![255])).collect(),
+            14 => ext16.iter().map(|x| vec![(x >> 8) as u8, *x as u8]).collect(),
+            _ => vec![vec![]],
+        };
+        for de in &dexts {
+            for le in &lexts {
+                let len = match ln {
+                    13 => le[0] as usize + 13,
+                    14 => ((le[0] as usize) << 8 | le[1] as usize) + 269,
+                    x => x as usize,
+                };
+                let mut base = vec![0x40, 1, 0, 1, hb];
+                base.extend(de);
+                base.extend(le);
+                // exact room, one short, one extra + marker + payload, then a second option pushing the number up
+                let mut full = base.clone();
+                full.extend(vec![0x62; len]);
+                case_dec(cx, &full);
+                if len > 0 {
+                    case_dec(cx, &full[..full.len() - 1]);
+                }
+                case_dec(cx, &base);
+                let mut more = full.clone();
+                more.extend([0xFF, 0x01]);
+                case_dec(cx, &more);
+                let mut two = full.clone();
+                two.extend([0xe0, 0xff, 0x00]); // + delta 65549
+                case_dec(cx, &two);
+                let mut two = full.clone();
+                two.extend([0xd1, 0x00, 0x07]);
+                case_dec(cx, &two);
+            }
+        }
+    }
+    cx.exhaustive.push("every option header byte x extended delta/length boundary values, with and without room".into());
+
+    // ---- 10. prefixes and single-byte corruptions of well-formed messages; random strings
+    let nmsg = if thorough { 3000 } else { 300 };
+    for _ in 0..nmsg {
+        let spec = random_spec(&mut rng, true);
+        if spec.opts.iter().any(|(_, v)| v.len() > 400) || spec.payload.len() > 60 {
+            continue;
+        }
+        let w = rfc_wire(spec.vtt, spec.code.byte(), spec.mid, &spec.tok, &spec.sorted_opts(), &spec.payload);
+        for k in 0..=w.len() {
+            case_dec(cx, &w[..k]);
+        }
+        for k in 0..w.len() {
+            for delta in [1u8, 0x10, 0x80, 0xff] {
+                let mut x = w.clone();
+                x[k] ^= delta;
+                case_dec(cx, &x);
+            }
+        }
+    }
+    let nstr = if thorough { 1_000_000 } else { 50_000 };
+    for _ in 0..nstr {
+        let n = rng.range(0, 24) as usize;
+        let mut b = rng.bytes(n);
+        if n > 0 && rng.chance(3, 4) {
+            b[0] = 0x40 | (rng.below(9) as u8);
+        }
+        case_dec(cx, &b);
+    }
+}
+
+fn permute(idx: &mut Vec<usize>, k: usize, f: &mut dyn FnMut(&[usize])) {
+    if k == idx.len() {
+        f(idx);
+        return;
+    }
+    for i in k..idx.len() {
+        idx.swap(k, i);
+        permute(idx, k + 1, f);
+        idx.swap(k, i);
+    }
+}
